@@ -130,7 +130,7 @@ func checkPoly(r *ev.Run, p []float64, planted []float64, note string) {
 				flat := true
 				for q := 0; q <= 16; q++ {
 					y := x + (w-x)*float64(q)/16
-					if math.Abs(peval(p, y)) > 1e-10*pderivAbs(p, y) {
+					if !(math.Abs(peval(p, y)) <= 1e-10*pderivAbs(p, y)) {
 						flat = false
 					}
 				}
